@@ -95,10 +95,17 @@ func switchToParentThread(L *LState, nargs int, haserror bool, kill bool) {
 	L.XMoveTo(parent, nargs)
 	L.stack.Pop()
 	offset := L.currentFrame.LocalBase - L.currentFrame.ReturnBase
+	nret := L.currentFrame.NRet
 	L.currentFrame = L.stack.Last()
 	L.reg.SetTop(L.reg.Top() - offset) // remove 'yield' function(including tailcalled functions)
 	if kill {
 		L.kill()
+	} else if nret > 0 {
+		// the results the pending call expects are nil unless the next
+		// resume supplies them (resume pushes its values over these slots)
+		top := L.reg.Top()
+		L.reg.FillNil(top, nret)
+		L.reg.top = top
 	}
 }
 
